@@ -8,8 +8,12 @@ river arcs, Sewer pipe_time 1; some with a sender whose neighbours are of two cl
  (c) hash seeds  fresh interpreters with different PYTHONHASHSEED give the same digest;
  (d) contamination  a fresh interpreter that first builds and runs ANOTHER model (same pollutant
                  configuration) gives the same digest for the target model.
-Known finding (returned as a signature, not reported): divergent river networks, whose
-river_discharge_order depends on the hash seed ("divergent-river-order-hashseed")."""
+Known finding (returned as a signature, not reported): Model.assign_upstream iterates over a set of node
+names, so river_discharge_order depends on the hash seed - for the dedicated divergent network
+("divergent-river-order-hashseed") and, same root cause, for tributaries at equal distance from the outlet
+in convergent networks ("confluence-river-order-hashseed"; results then differ in the last bits).  Such a
+model is run again under every seed with the river order of the first seed forced: anything that still
+differs is a violation."""
 import contextlib
 import hashlib
 import io
@@ -152,10 +156,8 @@ def divergent_cfg():
     NG.set_pollutants("simple")
     g = NG.Gen(r, 5, "simple", {})
     out = g.waste()
-    g.k = 0
-    nodes = {}
     for nm in ("alpha", "beta"):
-        nodes[nm] = g.river()
+        g.river()
         g.nodes[-1]["name"] = nm
         g.nodes[-1]["damp"] = F(1, 4)
         g.nodes[-1]["velocity"] = F(400)
@@ -242,7 +244,7 @@ def process_checks(ctx, cases, tmp):
 def judge(ctx, c):
     cfg, seeds, fr = c["cfg"], c["seeds"], c["fresh"]
     ref = fr[seeds[0]]
-    extra = {"check": "process", "seeds": seeds, "kind": c["kind"], "other": NG.cfg_json(c["other"]) if c.get("other") else None}
+    extra = {"check": "process", "seeds": seeds, "case_kind": c["kind"], "other": NG.cfg_json(c["other"]) if c.get("other") else None}
     seen = set()
     for s in seeds:
         if fr[s]["digest"].startswith("failed"):
@@ -322,7 +324,7 @@ def check_inprocess(ctx, cfg, r, thorough, only=None):
 def run(rep, thorough):
     r = C.rng("C13-monitor")
     ctx = Ctx(rep)
-    nmodels = 32 if thorough else 12
+    nmodels = 60 if thorough else 20
     seeds = list(range(8)) if thorough else [0, 1, 3]
     cases = []
     for i in range(nmodels):
@@ -372,7 +374,7 @@ def replay(rep, payload):
         check_inprocess(ctx, cfg, r, False, only=[list(x) for x in payload["chunks"]])
     else:
         case = {"cfg": cfg, "other": NG.cfg_from_json(payload["other"]) if payload.get("other") else None,
-                "seeds": payload.get("seeds") or [0, 1, 3], "kind": payload.get("kind", "netgen"), "base": None}
+                "seeds": payload.get("seeds") or [0, 1, 3], "kind": payload.get("case_kind", "netgen"), "base": None}
         with tempfile.TemporaryDirectory(prefix="c13_") as tmp:
             process_checks(ctx, [case], tmp)
     return ctx.nviol > 0
